@@ -13,7 +13,8 @@ def main():
         if a == "--timeout": to = int(args.pop(0))
     with Scratch() as sc:
         jobs = [{"crate": crate, "features": feats, "harness": h, "timeout_s": to} for h in args]
-        res = kani.run_many(sc, jobs, "/verif/logs/dev", 8)
+        import os
+        res = kani.run_many(sc, jobs, "/verif/logs/dev_%d" % os.getpid(), int(os.environ.get("VERIF_JOBS", "8")))
         for h, r in res.items():
             print(h, r["status"], r.get("solver_s"), "checks", r.get("checks"), "covers %s/%s" % (r.get("covers_sat"), r.get("covers")), r.get("reason", "")[:300])
             for f in r.get("failed_checks", [])[:6]:
